@@ -30,6 +30,7 @@ def load_api(only_auth=False):
     api["verify_signable"] = A.verify_signable
     api["verify_delegation"] = A.verify_delegation
     api["verify_root"] = A.verify_root
+    api["src_verify_root"] = A.verify_root
     api["src_verify_delegation"] = A.verify_delegation      # implementation side of the interpreted body (model side: Harness.v)
     api["wrap_as_signable"] = S.wrap_as_signable
     api["serialize_and_sign"] = S.serialize_and_sign
